@@ -179,7 +179,12 @@ pub fn c05(ctx: &CheckCtx) -> CheckResult {
     run_e2(
         ctx,
         &mut res,
-        &[("sync", set, mode), ("sync", if ctx.tier.is_thorough() { "bounded-big" } else { "bounded" }, bounded)],
+        &[
+            ("sync", set, mode.clone()),
+            ("sync", if ctx.tier.is_thorough() { "bounded-big" } else { "bounded" }, bounded),
+            // the same programs through wait_timeout(_while) / park_timeout / call_once_force
+            ("sync", if ctx.tier.is_thorough() { "thorough-alt" } else { "quick-alt" }, mode),
+        ],
         &[VKind::Sound, VKind::Enabled, VKind::Ending, VKind::Abort],
         if ctx.tier.is_thorough() { 1500.0 } else { 50.0 },
     );
@@ -199,6 +204,12 @@ pub fn conformance(ctx: &CheckCtx, fams: &[&str], assumptions: &[&str]) -> Check
         ..Mode::default()
     };
     let mut items: Vec<(&str, &str, Mode)> = fams.iter().map(|f| (*f, set, mode.clone())).collect();
+    // the alias entry points (recv_timeout / iter, wait_timeout(_while), park_timeout, call_once_force)
+    for f in fams {
+        if matches!(*f, "sync" | "mpsc") {
+            items.push((*f, if ctx.tier.is_thorough() { "thorough-alt" } else { "quick-alt" }, mode.clone()));
+        }
+    }
     // larger programs (the thorough set), all schedules with at most b preemptions: conformance only
     let b = if ctx.tier.is_thorough() { 3 } else { 2 };
     for f in fams {
@@ -400,7 +411,7 @@ pub fn c08(ctx: &CheckCtx) -> CheckResult {
 
 /// Transparent wrappers: the explorer sees the same tree with and without the wrapper around it.
 fn wrapper_transparency(_ctx: &CheckCtx, res: &mut CheckResult) {
-    let exe = std::env::current_exe().expect("current_exe");
+    let exe = Ok::<std::path::PathBuf, std::io::Error>(std::path::PathBuf::from("/proc/self/exe")).expect("current_exe");
     let out = std::process::Command::new(&exe)
         .arg("wrappers")
         .stdout(std::process::Stdio::piped())
@@ -499,7 +510,7 @@ pub fn replay_file(id: &str, path: &str) -> ! {
 
 /// C04 (ii): run the sequential differential of all 14 atomic types in parallel child processes.
 fn atomic_differential(ctx: &CheckCtx, res: &mut CheckResult) {
-    let exe = std::env::current_exe().expect("current_exe");
+    let exe = Ok::<std::path::PathBuf, std::io::Error>(std::path::PathBuf::from("/proc/self/exe")).expect("current_exe");
     let children: Vec<_> = (0..crate::atomic_diff::TYPES)
         .map(|i| {
             std::process::Command::new(&exe)
